@@ -755,21 +755,13 @@ func (h *handler) addHandlerContext(messages ...*Message) {
 	for i, msg := range messages {
 		ctx := msg.Context()
 
-		if h.name != "" {
-			ctx = context.WithValue(ctx, handlerNameKey, h.name)
-		}
-		if h.publisherName != "" {
-			ctx = context.WithValue(ctx, publisherNameKey, h.publisherName)
-		}
-		if h.subscriberName != "" {
-			ctx = context.WithValue(ctx, subscriberNameKey, h.subscriberName)
-		}
-		if h.subscribeTopic != "" {
-			ctx = context.WithValue(ctx, subscribeTopicKey, h.subscribeTopic)
-		}
-		if h.publishTopic != "" {
-			ctx = context.WithValue(ctx, publishTopicKey, h.publishTopic)
-		}
+		// all values are set unconditionally: an empty one must hide the value
+		// that a previous handler may have left in the message's context
+		ctx = context.WithValue(ctx, handlerNameKey, h.name)
+		ctx = context.WithValue(ctx, publisherNameKey, h.publisherName)
+		ctx = context.WithValue(ctx, subscriberNameKey, h.subscriberName)
+		ctx = context.WithValue(ctx, subscribeTopicKey, h.subscribeTopic)
+		ctx = context.WithValue(ctx, publishTopicKey, h.publishTopic)
 		messages[i].SetContext(ctx)
 	}
 }
